@@ -67,6 +67,14 @@ Section RealEngine.
     clear Hk. induction Hall as [|k l (m & E) _ IH]; simpl; [reflexivity|]. rewrite E. simpl. f_equal. exact IH.
   Qed.
 
+  (* what the fields of answer_of_tree are, on an expanded tree satisfying C08's invariant *)
+  Lemma answer_of_tree_reads t ks pk :
+    Good t -> n_kids t = Some ks ->
+    let a := answer_of_tree solve C t pk in
+    map Some (a_moves a) = map n_move ks /\ a_probs a = policy_probs solve t C /\
+    a_value a = n_value t /\ a_sims a = Z.of_nat (n_sims t) /\ a_vzero a = n_v0 t /\ a_pick a = pk.
+  Proof. intros Hg Hk. cbv zeta. split; [exact (good_kid_moves t ks Hg Hk)|]. repeat split. Qed.
+
   (* the picked candidate of an answer read off a Good tree is the move of the picked
      child, and `move` yields the position stored in that child *)
   Lemma picked_child t ks pk m :
